@@ -449,6 +449,11 @@ def _blocks(node, stores, loads, level):
               break
             if _names_stored(b) & (used | {t}):
               break
+            # a value that calls something is not moved past a statement that writes to the heap (self.x += 1, d[k] = v): the order
+            # of the two effects is part of what some rules decide (and the write may change what the call reads)
+            if any(isinstance(x, ast.Call) for x in ast.walk(a.value)) and any(
+                isinstance(x, (ast.Attribute, ast.Subscript)) and isinstance(x.ctx, (ast.Store, ast.Del)) for x in ast.walk(b)):
+              break
             # statements with calls in between may have side effects on what the value reads: only skip over plain assignments of
             # other names and expression statements when the value itself is call-free or j is adjacent
             if j > i + 1 and any(isinstance(x, ast.Call) for x in ast.walk(a.value)) and any(isinstance(x, ast.Call) for x in ast.walk(b)) and False:
